@@ -17,6 +17,7 @@ from __future__ import annotations
 
 import inspect
 import operator
+import re
 from collections.abc import Callable, Iterable, Iterator, Sequence
 from functools import cached_property, wraps
 from textwrap import indent
@@ -39,6 +40,15 @@ xpath_functions: Final = _plugin_manager.xpath_functions
 
 
 # helper
+
+
+_match_number = re.compile(r"\s*-?(\d+(\.\d*)?|\.\d+)\s*").fullmatch
+
+
+def _to_number(value: Any) -> float:
+    if isinstance(value, str):
+        return float(value) if _match_number(value) else float("nan")
+    return float(value)
 
 
 class _DocumentNode:
@@ -535,12 +545,12 @@ class AttributeValue(EvaluationNode):
     @ensure_prefix
     def evaluate(self, node: NodeBase, context: EvaluationContext) -> Optional[str]:
         if not _is_node_of_type(node, "TagNode"):
-            return ""
+            return None
         node = cast("TagNode", node)
         result = node.attributes.get(
             (context.namespaces.get(self.prefix, ""), self.local_name)
         )
-        return "" if result is None else result.value
+        return None if result is None else result.value
 
 
 class BooleanOperator(EvaluationNode):
@@ -582,7 +592,18 @@ class BooleanOperator(EvaluationNode):
         right = self.right.evaluate(node=node, context=context)
         if self.operator in (operator.and_, operator.or_):
             # these are logical, not bitwise operators
+            return self.operator(bool(left), bool(right))
+
+        # comparisons as defined in section 3.4 of the XPath 1.0 specs
+        if left is None or right is None:
+            # the value of a missing attribute is an empty node set
+            return False
+        if self.operator not in (operator.eq, operator.ne):
+            left, right = _to_number(left), _to_number(right)
+        elif isinstance(left, bool) or isinstance(right, bool):
             left, right = bool(left), bool(right)
+        elif isinstance(left, (int, float)) or isinstance(right, (int, float)):
+            left, right = _to_number(left), _to_number(right)
         return self.operator(left, right)
 
     def _is_unambiguously_locatable(self) -> bool:
@@ -633,8 +654,14 @@ class Function(EvaluationNode):
         )
 
     def evaluate(self, node: NodeBase, context: EvaluationContext) -> Any:
+        # the value of a missing attribute is an empty node set whose string value
+        # is an empty string
         return self.function(
-            context, *(x.evaluate(node=node, context=context) for x in self.arguments)
+            context,
+            *(
+                "" if (value := x.evaluate(node=node, context=context)) is None else value
+                for x in self.arguments
+            ),
         )
 
 
